@@ -1157,7 +1157,10 @@ class C13(PropOracle):
         failed_cmds = [x for x in self.cmds if x.get("crashed") or (x["complete"] and x.get("code") not in (0,))]
         if any(x.get("crashed") or (x["complete"] and isinstance(x.get("code"), int) and x.get("code") not in (0, 1)) for x in self.cmds):
             pass
-        if self.cmds and not c.get("is_complete") and not w.data.get("faulty"):
+        # a transient failure of a scheduler command (or a full disk at one write) inside the command or a round of the
+        # resubmission is no excuse: the recovery rounds that follow must still bring the submission to completion
+        soft = all(f[2] in ("fail", "fail-all", "edquot") for f in (w.data.get("faults") or []))
+        if self.cmds and not c.get("is_complete") and (not w.data.get("faulty") or soft) and any(v_.name.startswith("rec") for v_ in w.vprocs):
             last = self.cmds[-1]
             self.v(w, f"after resubmit-jobs ({last['vp']} ended with {last.get('code')!r}) the submission never completed again "
                       f"although try-submit-jobs was run (submitter={c.get('submitter')!r}, lock left={os.path.exists(w.rootp + 'cluster_config.json.lock')})",
